@@ -35,6 +35,7 @@ def plan(tier, seed):
             for mutual in (False, True):
                 units.append({'kind': 'handshake', 'proto': proto, 'mutual': mutual, 'weight': 3})
             units.append({'kind': 'handshake-fail', 'proto': proto, 'weight': 3})
+            units.append({'kind': 'peer-secrets', 'proto': proto, 'weight': 3})
             units.append({'kind': 'recv-fail', 'proto': proto, 'faults': RECV_FAULTS if rep % 4 == 0 else [RECV_FAULTS[(rep + j) % len(RECV_FAULTS)] for j in range(3)], 'weight': 3})
         for i in range(3):
             units.append({'kind': 'sm2', 'weight': 2})
@@ -146,12 +147,43 @@ def pms_hits(text, master, randoms, sizes=(32, 48)):
     return hits
 
 
+def tls13_secret_hits(text, traffic_keys):
+    """TLS 1.3 traffic secrets (client/server handshake or application traffic secret) are not kept in the connection object;
+    they are recognised by what they derive: a 32-octet window W of the output (raw or hex) with
+    HKDF-Expand-Label(W, "key", "", 16) equal to one of the connection's traffic keys."""
+    from ..hostile13 import expand_label
+    keys = [k for k in traffic_keys if k and any(k)]
+    if not text or not keys:
+        return []
+    cands = [bytes(text)] if len(text) <= 20000 else []
+    low = bytes(text).lower()
+    for m in re.finditer(rb'(?:[0-9a-f]{2}[\s:,\-]?){32,}', low):
+        hx = re.sub(rb'[^0-9a-f]', b'', m.group(0))
+        try:
+            cands.append(bytes.fromhex(hx[:len(hx) // 2 * 2].decode()))
+        except ValueError:
+            pass
+    for c in cands:
+        for off in range(0, len(c) - 32 + 1):
+            w = c[off:off + 32]
+            if len(set(w)) < 8:
+                continue
+            if expand_label(w, b'key', b'', 16) in keys:
+                return [('traffic_secret', 'expand-label-window')]
+    return []
+
+
 def judge(ctx, cap, secrets, op, path):
     for chan, text in (('stdout', cap.stdout), ('stderr', cap.stderr)):
         hits = scan(text, secrets)
         ctx.check(not hits, 'leak:%s:%s:%s' % (chan, op, hits[0][0] if hits else ''), path=path, hits=hits[:6],
                   excerpt=text[:300].decode(errors='replace'))
         ctx.stat('captured_bytes_' + chan, len(text))
+    tkeys = [v for n, v in secrets if n.endswith('_write_key')]
+    if tkeys:
+        for chan, text in (('stdout', cap.stdout), ('stderr', cap.stderr)):
+            hits = tls13_secret_hits(text, tkeys)
+            ctx.check(not hits, 'leak:%s:%s:traffic_secret' % (chan, op), path=path, excerpt=text[:300].decode(errors='replace'))
     ctx.ok(2 * len(secrets))
     for name, val in secrets:
         ctx.nontrivial(op, path, name, bytes(val[:6]))     # distinct = (operation, path, kind of secret, the secret itself)
@@ -475,6 +507,113 @@ def u_ctx_setup(ctx, u):
     for role in set(r for r, _ in outcome):
         ctx.check(outcome[(role, 'success')] == 1, 'harness:ctx-setup-success-case-failed', role=role, ret=outcome[(role, 'success')])
     ctx.sample({'kind': 'ctx-setup', 'cases': len(cases), 'refused': sum(1 for v in outcome.values() if v != 1)})
+
+
+def u_peer_secrets(ctx, u):
+    """Library server (and TLS 1.3 client) against the Python peers of vf/hostile13.py / vf/hostile_tlcp.py: the peer derives
+    every secret of the session itself (ECDH share, handshake / master / traffic secrets, pre-master and master secret, key
+    block), so the complete list is searched in what the library prints - on the success path, and when the peer's last
+    message (Finished) is wrong."""
+    import socket
+    from .. import hostile13 as H13
+    from .. import hostile_tlcp as HT
+    rng = ctx.rng
+    pname = u['proto']
+    proto = T.PROTOS[pname]
+    creds = T.Creds(ctx, 'c19p-%d' % u['_i'], 1)
+    srv_ctx, cli_ctx = T.pair_ctx(ctx, creds, proto, False)
+    base = T.run_handshake(ctx, srv_ctx, cli_ctx, seed=rng.randrange(1, 1 << 30), use_proxy=True)
+    okb = base['server'].ret == 1 and base['client'].ret == 1
+    ch = [r for i, d, r in base['proxy'].records if d == 'c>s' and r[0] == T.REC_HANDSHAKE and r[5] == 1]
+    sh = [r for i, d, r in base['proxy'].records if d == 's>c' and r[0] == T.REC_HANDSHAKE and r[5] == 2]
+    T.close_pair(base)
+    if not ctx.check(okb and ch and sh, 'harness:honest-handshake-failed', proto=pname, phase='baseline for the python peer'):
+        return
+    roles = ['server', 'client'] if pname == 'tls13' else ['server']
+    for victim in roles:
+        for path in ('success', 'wrong-finished'):
+            c_end, s_end = socket.socketpair()
+            cap = Capture(ctx)
+            secrets = []
+            with cap:
+                ctx.begin(['peer-secrets', pname, victim, path])
+                if victim == 'server':
+                    ep = T.Endpoint(ctx, srv_ctx, s_end, 's', rng.randrange(1, 1 << 30), False)
+                else:
+                    ep = T.Endpoint(ctx, cli_ctx, c_end, 'c', rng.randrange(1, 1 << 30), False)
+                th = threading.Thread(target=ep.handshake)
+                th.start()
+                try:
+                    if pname == 'tls13' and victim == 'server':
+                        cl = H13.Client(c_end, ch[0], rng.randrange(1, R.N - 1))
+                        if cl.start():
+                            fin = cl.finished_msg()
+                            if path != 'success':
+                                fin = fin[:-1] + bytes([fin[-1] ^ 1])
+                            cl.send_hs(fin)
+                        ks = getattr(cl, 'ks', None)
+                    elif pname == 'tls13':
+                        sv = H13.Server(s_end, sh[0], rng.randrange(1, R.N - 1), rng.randbytes(32))
+                        if sv.start():
+                            sv.send_hs(H13.hs_msg(8, b'\x00\x00'))
+                            sv.send_hs(H13.certificate_msg([creds.sign_cert] + list(reversed(creds.pki.inters))))
+                            sv.send_hs(H13.server_certificate_verify_msg(creds.sign_priv, sv.transcript, k=rng.randrange(1, R.N - 1)))
+                            fin = sv.finished_msg()
+                            if path != 'success':
+                                fin = fin[:-1] + bytes([fin[-1] ^ 1])
+                            sv.send_hs(fin)
+                            sv.app = sv.ks.app_keys(sv.transcript)
+                            if path == 'success':
+                                sv.read_client_finished()
+                        ks = getattr(sv, 'ks', None)
+                    else:
+                        cl = HT.Client(c_end, ch[0], R.pub(creds.enc_priv), rng) if pname == 'tlcp' else HT.Client12(c_end, ch[0], rng)
+                        if cl.start():
+                            cl.send_plain(cl.client_key_exchange())
+                            cl.change_cipher_spec()
+                            if path != 'success':
+                                cl.hs += b'x'           # the Finished value is computed over another transcript
+                            cl.finished()
+                            if path == 'success':
+                                cl.read_server_finished()
+                        ks = None
+                        if hasattr(cl, 'master'):
+                            secrets += [('pre_master_secret', cl.pms), ('master_secret', cl.master), ('client_mac_key', cl.c_mac),
+                                        ('server_mac_key', cl.s_mac), ('client_enc_key', cl.c_key), ('server_enc_key', cl.s_key)]
+                    if ks is not None:
+                        secrets += [('handshake_secret', ks.hs), ('master_secret', ks.master)]
+                        for nm in ('c_hs', 's_hs', 'c_ap', 's_ap'):
+                            if hasattr(ks, nm):
+                                sec = getattr(ks, nm)
+                                secrets += [(nm + '_traffic_secret', sec), (nm + '_key', ks.keys(sec)[0]), (nm + '_iv', ks.keys(sec)[1])]
+                        if not hasattr(ks, 'c_ap'):
+                            pass
+                except (OSError, ValueError):
+                    pass
+                th.join(60)
+                if th.is_alive():
+                    for sk in (c_end, s_end):
+                        try:
+                            sk.shutdown(socket.SHUT_RDWR)
+                        except OSError:
+                            pass
+                    th.join(10)
+                ctx.shim.vf_fflush_all()
+            if path == 'success' and ep.ret != 1:
+                ctx.stat('peer_secrets_handshake_not_completed')
+            if secrets:
+                secrets += [('server_sign_private', R.i2b(creds.sign_priv)), ('server_enc_private', R.i2b(creds.enc_priv))]
+                judge(ctx, cap, secrets, 'peer:%s:%s' % (pname, victim), path)
+                ctx.stat('peer_secret_sessions')
+            for sk in (c_end, s_end):
+                try:
+                    sk.close()
+                except OSError:
+                    pass
+            ep.conn.free()
+    ctx.sample({'kind': 'peer-secrets', 'proto': pname})
+    srv_ctx.free()
+    cli_ctx.free()
 
 
 def u_sm2(ctx, u):
@@ -918,5 +1057,5 @@ def u_record(ctx, u):
 
 
 def run_unit(ctx, u):
-    {'handshake': u_handshake, 'handshake-fail': u_handshake_fail, 'recv-fail': u_recv_fail, 'ctx-setup': u_ctx_setup, 'sm2': u_sm2, 'pkcs8': u_pkcs8, 'import': u_import, 'cms': u_cms, 'sm9': u_sm9,
+    {'handshake': u_handshake, 'handshake-fail': u_handshake_fail, 'recv-fail': u_recv_fail, 'ctx-setup': u_ctx_setup, 'peer-secrets': u_peer_secrets, 'sm2': u_sm2, 'pkcs8': u_pkcs8, 'import': u_import, 'cms': u_cms, 'sm9': u_sm9,
      'record': u_record}[u['kind']](ctx, u)
